@@ -45,7 +45,8 @@ template <class P> static P stepDown(P x, int k) { for (int i = 0; i < k; ++i) x
 
 static const double GENERIC_ANGLES[3][2] = {{0.7, -1.9}, {2.6, -0.3}, {1.2, -2.8}};
 
-template <class P> static std::vector<double> thetaAlphabet(const verif::Run& run, bool small = false) {
+template <class P> static std::vector<double> thetaAlphabet(const verif::Run& run, bool extras) {
+    const bool small = false;
     const P pi = NTraits<P>::getPi(), h = pi / 2, e = (P)Prec<P>::angEps();
     std::vector<P> v = {P(0), e, -e, pi / 6, -pi / 6, h - e, -(h - e), h, -h, h + e, -(h + e), pi - e, -(pi - e), pi, -pi};
     if (!small) {
@@ -59,7 +60,7 @@ template <class P> static std::vector<double> thetaAlphabet(const verif::Run& ru
         if (!run.thorough() && s != s0) continue;
         v.push_back((P)GENERIC_ANGLES[s][0]); v.push_back((P)GENERIC_ANGLES[s][1]);
     }
-    if (run.thorough() && !small) {
+    if (run.thorough() && extras) {
         for (int k : {1, 2, 5, 6, 40}) { v.push_back(stepDown(h, k)); v.push_back(-stepDown(h, k)); }
         for (P t : {P(1e-12), P(1e-9), P(1e-5)}) { v.push_back(h - t); v.push_back(-(h - t)); v.push_back(t); v.push_back(pi - t); }
         v.push_back(stepDown(pi, 3)); v.push_back(-stepDown(pi, 2));
@@ -653,32 +654,35 @@ template <class P> static void caseInPlace(verif::Run& run, const std::vector<Ro
 // ---------------------------------------------------------------- driver
 template <class P> static void runAll(verif::Run& run) {
     const std::string t = std::string(".") + Prec<P>::tag();
-    const std::vector<double> TH = thetaAlphabet<P>(run);
-    const int n = (int)TH.size();
-    run.count(NM("alphabet-size"), n);
+    // TH: base alphabet (first and last angle of a three-angle sequence); TH2: with the thorough-tier extras (more ulp steps
+    // below pi/2 and pi, more eps scales) -- used for the middle angle, which alone decides the singular branches, and for
+    // the cheaper families.  In the quick tier both are the same.
+    const std::vector<double> TH = thetaAlphabet<P>(run, false), TH2 = thetaAlphabet<P>(run, true);
+    const int n = (int)TH.size(), n2 = (int)TH2.size();
+    run.count(NM("alphabet-size"), n); run.count(NM("alphabet-size-middle-angle"), n2);
     const std::vector<Rotation_<P>> S = rotationSet<P>(run);
     const int nS = (int)S.size();
     const std::vector<V3> L = latticeDirs();
 
     {   // A
-        verif::Odometer od; od.dim("a3", n); od.dim("a2", n); od.dim("a1", n); od.dim("x3", 3); od.dim("x2", 3); od.dim("x1", 3); od.dim("space", 2);
+        verif::Odometer od; od.dim("a3", n); od.dim("a2", n2); od.dim("a1", n); od.dim("x3", 3); od.dim("x2", 3); od.dim("x1", 3); od.dim("space", 2);
         run.parallel(NM("three"), od.size(), [&](int64_t idx) {
             auto d = od.digits(idx);
-            caseThree<P>(run, d[6], d[5], d[4], d[3], TH[d[2]], TH[d[1]], TH[d[0]], false);
+            caseThree<P>(run, d[6], d[5], d[4], d[3], TH[d[2]], TH2[d[1]], TH[d[0]], false);
         });
     }
     {   // B
-        verif::Odometer od; od.dim("a2", n); od.dim("a1", n); od.dim("x2", 3); od.dim("x1", 3); od.dim("space", 2);
-        run.parallel(NM("two"), od.size(), [&](int64_t idx) { auto d = od.digits(idx); caseTwo<P>(run, d[4], d[3], d[2], TH[d[1]], TH[d[0]]); });
+        verif::Odometer od; od.dim("a2", n2); od.dim("a1", n2); od.dim("x2", 3); od.dim("x1", 3); od.dim("space", 2);
+        run.parallel(NM("two"), od.size(), [&](int64_t idx) { auto d = od.digits(idx); caseTwo<P>(run, d[4], d[3], d[2], TH2[d[1]], TH2[d[0]]); });
     }
     {   // C
-        verif::Odometer od; od.dim("a", n); od.dim("x", 3);
-        run.parallel(NM("one"), od.size(), [&](int64_t idx) { auto d = od.digits(idx); caseOne<P>(run, d[1], TH[d[0]]); });
+        verif::Odometer od; od.dim("a", n2); od.dim("x", 3);
+        run.parallel(NM("one"), od.size(), [&](int64_t idx) { auto d = od.digits(idx); caseOne<P>(run, d[1], TH2[d[0]]); });
     }
     {   // D
         static const double SC[3] = {1, 1e-3, 1e3};
-        verif::Odometer od; od.dim("a", n); od.dim("dir", 26); od.dim("scale", 3);
-        run.parallel(NM("angleaxis"), od.size(), [&](int64_t idx) { auto d = od.digits(idx); caseAngleAxis<P>(run, TH[d[0]], L[d[1]], SC[d[2]]); });
+        verif::Odometer od; od.dim("a", n2); od.dim("dir", 26); od.dim("scale", 3);
+        run.parallel(NM("angleaxis"), od.size(), [&](int64_t idx) { auto d = od.digits(idx); caseAngleAxis<P>(run, TH2[d[0]], L[d[1]], SC[d[2]]); });
     }
     {   // E
         run.parallel(NM("quatpair"), (int64_t)nS * nS, [&](int64_t idx) { caseQuatPair<P>(run, S, (int)(idx / nS), (int)(idx % nS)); });
@@ -740,7 +744,7 @@ int main(int argc, char** argv) {
                "angle-axis (26 lattice directions x 3 lengths), quaternion pairs / scalings over the rotation set (24 cube rotations + generic + near-singular), two-axes "
                "construction (9 axis pairs x 26 x 107 second vectors), nearly-orthogonal input (3^9 perturbation lattice x deltas x base rotations), rotation pairs, transform pairs; "
                "a case is one tuple; distinct by construction of the odometer; non-trivial = not the all-zero / identical-pair tuple";
-    run.assumptions = {"angle alphabet: 0, +-eps, +-pi/6, +-(pi/2-eps), +-pi/2, +-(pi/2+eps), +-(pi-eps), +-pi, the values 3 and 4 ulps below pi/2 and 1-2 ulps below pi and +-8e-16/+-1e-15 (both sides of the `Rsum > 4*Eps` tests), 2 generic values chosen by VERIF_SEED (thorough: all 6 and more eps scales); eps = 1e-7 (double) / 1e-3 (float)",
+    run.assumptions = {"angle alphabet: 0, +-eps, +-pi/6, +-(pi/2-eps), +-pi/2, +-(pi/2+eps), +-(pi-eps), +-pi, the values 3 and 4 ulps below pi/2 and 1-2 ulps below pi and +-8e-16/+-1e-15 (both sides of the `Rsum > 4*Eps` tests), 2 generic values chosen by VERIF_SEED (thorough: all 6 generic values, and for the middle angle / the cheaper families 22 more values: 1,2,5,6,40 ulps below pi/2, eps in {1e-12,1e-9,1e-5}); eps = 1e-7 (double) / 1e-3 (float)",
                        "reference arithmetic in x87 long double (64-bit mantissa)",
                        "round trips are demanded at matrix level (angles are not unique); for rotations not written by the three-angle setter the tight bound is scaled by the condition number 1/|cos th2| resp. 1/|sin th2|, and a loose bound 30*sqrt(eps) is demanded unscaled",
                        "two-axes construction: the second axis is compared only when sin(angle(u,v)) >= 1e-3 (the fallback threshold of the code is undocumented)"};
